@@ -26,6 +26,14 @@ theorem body_tally_timer_Start_unchanged : Facts.body_tally_timer_Start = ["func
 
 theorem body_tally_timer_snapshot_unchanged : Facts.body_tally_timer_snapshot = ["func() []time.Duration", "t.unreported.RLock()", "snap := make([]time.Duration, len(t.unreported.values))", "copy(snap, t.unreported.values)", "t.unreported.RUnlock()", "return snap"] := rfl
 
+theorem body_tally_timerNoReporterSink_Capabilities_unchanged : Facts.body_tally_timerNoReporterSink_Capabilities = ["func() Capabilities", "return capabilitiesReportingTagging"] := rfl
+
+theorem body_tally_timerNoReporterSink_Flush_unchanged : Facts.body_tally_timerNoReporterSink_Flush = ["func()"] := rfl
+
+theorem body_tally_timerNoReporterSink_ReportCounter_unchanged : Facts.body_tally_timerNoReporterSink_ReportCounter = ["func( name string, tags map[string]string, value int64, )"] := rfl
+
+theorem body_tally_timerNoReporterSink_ReportGauge_unchanged : Facts.body_tally_timerNoReporterSink_ReportGauge = ["func( name string, tags map[string]string, value float64, )"] := rfl
+
 theorem body_tally_timerNoReporterSink_ReportTimer_unchanged : Facts.body_tally_timerNoReporterSink_ReportTimer = ["func( name string, tags map[string]string, interval time.Duration, )", "r.timer.unreported.Lock()", "r.timer.unreported.values = append(r.timer.unreported.values, interval)", "r.timer.unreported.Unlock()"] := rfl
 
 theorem body_instrument__NewCall_unchanged : Facts.body_instrument__NewCall = ["func(scope tally.Scope, name string) Call", "return &call{ err: scope.Tagged(map[string]string{resultType: resultTypeError}).Counter(name), success: scope.Tagged(map[string]string{resultType: resultTypeSuccess}).Counter(name), timing: scope.SubScope(name).Timer(timingSuffix), }"] := rfl
